@@ -421,6 +421,14 @@ class DemoStorage(ConflictResolvingStorage):
         self._commit_lock.acquire()
 
         with self._lock:
+            if not a and 'tid' not in k:
+                # The changes storage makes its transaction ids later than
+                # its own last one and the clock.  They have to be later
+                # than the base's too (the clock may have stepped back, or
+                # the base comes from a machine whose clock is ahead).
+                base_tid = self.base.lastTransaction()
+                if base_tid > self.changes.lastTransaction():
+                    k['tid'] = ZODB.utils.newTid(base_tid)
             try:
                 self.changes.tpc_begin(transaction, *a, **k)
             except:  # noqa: E722 do not use bare 'except'
